@@ -335,6 +335,32 @@ fn judge_run(run: &ScriptRun, gname: &'static str, case: usize, items: &Mutex<Ve
                 }
             }
             cr.count("fdt_received_callbacks", rx.log.fdts.len() as u64);
+            // ... and the metadata flute's receiver hands to new_object_writer are the values the sender was given
+            // (groups = FDT-Instance level groups followed by the File level ones); attribute values containing raw
+            // tab / newline / CR are left to the XML-side comparison (attribute-value normalisation, known finding)
+            let mut n_meta = 0u64;
+            for w in &rx.log.writers {
+                let i = match run.tois.iter().position(|t| *t == Some(w.toi)) {
+                    Some(i) => i,
+                    None => continue,
+                };
+                let obj = &run.objs[i];
+                n_meta += 1;
+                let raw_ws = |s: &Option<String>| s.as_ref().map(|x| x.contains(|c| c == '\t' || c == '\n' || c == '\r')).unwrap_or(false);
+                for (field, msg) in vh::oracle::check_meta(w, obj, &run.spec, run.transfer_len[i].unwrap_or(0), util::at(0), util::at(0)) {
+                    let judged = match field.as_str() {
+                        "groups" | "content_location" | "content_length" | "transfer_length" | "md5" | "cenc" => true,
+                        "content_type" => !raw_ws(&Some(obj.content_type.clone())),
+                        "e_tag" => !raw_ws(&obj.e_tag),
+                        _ => false,
+                    };
+                    if judged {
+                        cr.violations.push(Violation::new("receiver_metadata", format!("new_object_writer metadata of TOI {}: field {}: {}", w.toi, field, msg))
+                            .with("mode", mode).with("field", field.clone()).witness(wit(json!({"object": obj.json()}))));
+                    }
+                }
+            }
+            cr.count("receiver_metadata_compared", n_meta);
         }
         Err(p) => cr.violations.push(Violation::new("panic", format!("receiver panicked: {} @ {}", p.msg, p.short_loc())).with("site", p.file()).witness(wit(json!(null)))),
     }
